@@ -12,7 +12,10 @@
      modelled merge, MergeProofs.merge_WFh), whatever was re-parented on the way;
    - stale_child_walk_exponential: WFh cannot be dropped.  When a re-parented type is left in the children of its old
      supertype (one stale entry per level, everything else as declared), the walk from the root of a tree of depth k
-     hands out 3 * 2^k - 2 types although there are 2k + 1: the walk enumerates paths, not types. *)
+     hands out 3 * 2^k - 2 types although there are 2k + 1: the walk enumerates paths, not types;
+   - (fourth wave, at the end of the file) supertype_walk_ends / merged_supertype_walk_ends: the walk UP the supertype
+     attributes (Type.subsumes) returns on every type system satisfying WFh, in particular on every result of the modelled
+     merge; ring_supertype_walk_diverges: on a supertype chain that is a ring it runs out of every fuel. *)
 From Cassis Require Import Base TS TSProofs Merge MergeProofs.
 From Coq Require Import Lia.
 
@@ -71,4 +74,36 @@ Proof. split; vm_compute; reflexivity. Qed.
 
 (* the stale tables violate exactly the clause of WFh that ties _children to the supertype attribute *)
 Example stale_ladder_not_WFh : wfhb (ladder true 1) = false.
+Proof. vm_compute. reflexivity. Qed.
+
+(* ------------------------------------------------------------------------------------------------ fourth wave: the walk UP
+   Type.subsumes (typesystem.py 771-791: `while cur: ... cur = cur.supertype`) is what TypeSystem.subsumes, typecheck (range
+   and element type of every reference), select (through is_instance_of, the same walk written recursively) and
+   merge_typesystems itself run.  It follows the supertype attributes, which merge_typesystems rewrites when it re-parents
+   a type.  On every type system satisfying WFh - every supertype is registered with a smaller rank - the walk returns
+   (and decides `below`); in particular on every type system the modelled merge returns.  WFh cannot be dropped: on a
+   supertype chain that is a ring the walk for a type outside the ring runs out of every fuel. *)
+Theorem supertype_walk_ends ts a b : WFh ts -> In a ts -> In b ts ->
+  exists r, subsumes_ty ts a b = Ok r /\ (r = true <-> below ts (t_name a) (t_name b)).
+Proof. exact (subsumes_ty_spec ts a b). Qed.
+
+Theorem merged_supertype_walk_ends inputs ts a b : all_WFh inputs -> merge inputs = Ok ts -> In a ts -> In b ts ->
+  exists r, subsumes_ty ts a b = Ok r /\ (r = true <-> below ts (t_name a) (t_name b)).
+Proof. intros Hin Hm. apply supertype_walk_ends. exact (merge_WFh inputs ts Hin Hm). Qed.
+
+(* t.A <- t.B <- t.A: what re-parenting t.A under its own descendant t.B leaves behind *)
+Definition ring2 : tsys :=
+  [bare TOP None ["t.C"] 0; bare "t.C" (Some TOP) [] 1; bare "t.A" (Some "t.B") ["t.B"] 2; bare "t.B" (Some "t.A") ["t.A"] 3].
+
+Theorem ring_supertype_walk_diverges : forall k, walks_up k ring2 "t.C" "t.A" = None /\ walks_up k ring2 "t.C" "t.B" = None.
+Proof.
+  induction k as [|k [IHa IHb]]; [split; reflexivity|].
+  split; cbn [walks_up].
+  - change (String.eqb "t.C" "t.A") with false. cbv iota.
+    change (find_ty ring2 "t.A") with (Some (bare "t.A" (Some "t.B") ["t.B"] 2)). cbn [t_super bare]. exact IHb.
+  - change (String.eqb "t.C" "t.B") with false. cbv iota.
+    change (find_ty ring2 "t.B") with (Some (bare "t.B" (Some "t.A") ["t.A"] 3)). cbn [t_super bare]. exact IHa.
+Qed.
+
+Example ring_not_WFh : wfhb ring2 = false.
 Proof. vm_compute. reflexivity. Qed.
